@@ -39,6 +39,11 @@ def loopRet {σ ρ : Type} (lo hi : Int) (s : σ) (f : Int → σ → Option (ρ
     | Sum.inl r => some (Sum.inl r)
     | Sum.inr s => f i s
 
+/-- `ESL_ALLOC(p, sizeof(T) * n)`: a fresh array of `n` cells (contents unspecified in C: the translated callers overwrite every cell
+    before reading it; the model fills it with `d`).  `n <= 0` is outside the macro's domain (it raises an exception): `none`.
+    A failed `malloc` is not modelled. -/
+def allocM {α : Type} (n : Int) (d : α) : Option (Array α) := if 0 < n then some (Array.replicate n.toNat d) else none
+
 /-- libc `qsort (a, n, sizeof (T), cmp)`: the first `n` cells are rearranged into an arrangement ordered by `cmp` (modelled by a
     merge sort: for a comparator that is a total preorder the ordered arrangement is unique up to the order of equal keys) -/
 def qsortM {α : Type} (a : Array α) (n : Int) (cmp : α → α → Int) : Option (Array α) :=
@@ -103,6 +108,19 @@ class VMix (α : Type) (ω : outParam Type) where
 instance : VMix Float32 Float := ⟨Float32.toFloat, Float.toFloat32⟩
 /-- exact arithmetic: one type, no rounding between `float` and `double` -/
 @[reducible] def VMix.same (α : Type) : VMix α α := ⟨id, id⟩
+
+/-- `isfinite(x)` and `fabs(x)` as `esl_vec_{D,F}Validate` use them -/
+class VFin (α : Type) where
+  isFinite : α → Bool
+  abs : α → α
+instance : VFin Float := ⟨Float.isFinite, Float.abs⟩
+instance : VFin Float32 := ⟨Float32.isFinite, Float32.abs⟩
+
+/-- `(T) x` for an `int` cell `x` and a floating element type `T` (`esl_vec_I2F`, `esl_vec_I2D`) -/
+class VInt (α ι : Type) where
+  ofInt : ι → α
+instance : VInt Float32 Int32 := ⟨fun x => Float32.ofInt x.toInt⟩
+instance : VInt Float Int32 := ⟨fun x => Float.ofInt x.toInt⟩
 
 /-- `int16_t` / `int8_t` / `char` cells are only moved (Copy, Reverse): no arithmetic -/
 instance instCElemUInt8 : CElem UInt8 where
